@@ -324,6 +324,29 @@ Definition top_ok (vars : env) (t : ityp) (l : lit) : bool :=
 Lemma top_ok_nonvar vars t l : is_var l = false -> top_ok vars t l = true.
 Proof. destruct l; cbn; try discriminate; reflexivity. Qed.
 
+Lemma seq_fields_good_each (step : field -> result (option pyval)) fds :
+  forall out, seq_fields step fds = Good out -> forall fd, In fd fds -> exists o, step fd = Good o.
+Proof.
+  induction fds as [|fd' fds IH]; intros out H fd I; [destruct I|].
+  cbn [seq_fields] in H. destruct (step fd') as [o| | |] eqn:C; try discriminate.
+  apply rmap_good in H as [out' [H _]]. destruct I as [->|I]; [eauto | eapply IH; eauto].
+Qed.
+
+Lemma vfields_some_each vstep fds :
+  forall errs, vfields vstep fds = Some errs -> forall fd, In fd fds -> exists e, vstep fd = Some e.
+Proof.
+  induction fds as [|fd' fds IH]; intros errs H fd I; [destruct I|].
+  cbn [vfields] in H. apply oapp_some in H as [e1 [e2 [V1 [V2 _]]]].
+  destruct I as [->|I]; [eauto | eapply IH; eauto].
+Qed.
+
+Lemma nat_list_eqb_sym a b : nat_list_eqb a b = nat_list_eqb b a.
+Proof.
+  destruct (nat_list_eqb a b) eqn:E1, (nat_list_eqb b a) eqn:E2; try reflexivity.
+  - apply nat_list_eqb_eq in E1. subst. rewrite nat_list_eqb_refl in E2. discriminate.
+  - apply nat_list_eqb_eq in E2. subst. rewrite nat_list_eqb_refl in E1. discriminate.
+Qed.
+
 Lemma vfields_invalid_errs (step : field -> result (option pyval)) vstep fds :
   (forall fd, In fd fds -> forall e, vstep fd = Some e -> step fd = Invalid -> e <> []) ->
   forall errs, seq_fields step fds = Invalid -> vfields vstep fds = Some errs -> errs <> [].
@@ -665,5 +688,591 @@ Section Agreement.
       destruct l; apply rmap_good in H as [a [_ ->]]; discriminate.
     - destruct (is_lnull l) eqn:Nl; [discriminate|].
       destruct (IH _ _ _ _ H Ny) as [X|X]; congruence.
+  Qed.
+
+  (* ---------------------------------------------------------------- object literals *)
+
+  Section ObjLit.
+    Variable c cd : ityp -> lit -> result pyval.
+    Variable vl : ityp -> lit -> path -> option (list path).
+    Variable static : bool.
+    Variable vars : env.
+
+    (* what the proofs use of the recursive calls *)
+    Hypothesis HIH : forall t x q e, lit_wf x -> (static = true -> lit_const x) ->
+      (static = false -> top_ok vars t x = true) ->
+      settled (c t x) -> vl t x q = Some e -> (c t x = Invalid <-> e <> []).
+    Hypothesis HN : forall t x y, c t x = Good y -> is_null y = true -> is_lnull x = true \/ is_var x = true.
+    Hypothesis HCV : forall t vn, settled (c t (LVar vn)) ->
+      c t (LVar vn) = (let v := lookup_var vn vars in if is_null v && is_nonnull t then Invalid else good v).
+    Hypothesis HVV : forall t vn q e, vl t (LVar vn) q = Some e ->
+      e = (if static then [] else if is_nonnull t && is_null (lookup_var vn vars) then [q] else []).
+    Hypothesis HCN : forall t, settled (c t LNull) -> c t LNull = (if is_nonnull t then Invalid else Good PNone).
+
+    Variable oneof : bool.
+    Variable fs : list (text * lit).
+    Variable p : path.
+    Hypothesis FW : lit_wf (LObject fs).
+    Hypothesis FC : static = true -> lit_const (LObject fs).
+
+    Definition exceptional (fd : field) : Prop :=
+      oneof = true /\ static = false /\
+      exists vn, lit_get (f_name fd) fs = Some (LVar vn) /\ is_null (lookup_var vn vars) = true.
+
+    Lemma lit_step_facts fd e :
+      settled (lit_step c cd vars fs fd) -> vlit_step vl static vars oneof fs p fd = Some e ->
+      (lit_step c cd vars fs fd = Invalid -> e <> [])
+      /\ (forall o, lit_step c cd vars fs fd = Good o -> e = [] \/ exceptional fd).
+    Proof.
+      unfold lit_step, vlit_step, exceptional. intros St V.
+      destruct (lit_get (f_name fd) fs) as [node|] eqn:LG.
+      2:{ inversion V; subst e; clear V. destruct (required fd).
+          - split; [intros _; discriminate | intros o H; discriminate].
+          - split; [|intros; left; reflexivity].
+            unfold default_step. destruct (f_default fd); [destruct (cd (f_type fd) l)|]; discriminate. }
+      pose proof (lit_get_in _ _ _ LG) as Inode.
+      destruct (is_var node) eqn:Vn.
+      - destruct node as [vn| | | | | | | |]; try discriminate Vn. cbn [var_missing] in *.
+        destruct static eqn:ST.
+        { exfalso. exact (lit_const_obj _ _ _ (FC eq_refl) Inode). }
+        set (v := lookup_var vn vars) in *.
+        destruct (is_undef v) eqn:U.
+        + assert (Nv : is_null v = true) by (destruct v; cbn in U; try discriminate; reflexivity).
+          destruct oneof eqn:OO.
+          * rewrite Nv in V. apply oapp_some in V as [e1 [e2 [V1 [V2 ->]]]]. inversion V1; subst e1.
+            split; [intros _; discriminate|]. intros o H. right. repeat split; auto. exists vn. auto.
+          * cbn [andb] in V. destruct (required fd) eqn:R; cbn [negb] in V.
+            -- apply HVV in V. cbn in V. fold v in V. rewrite Nv in V.
+               assert (NN : is_nonnull (f_type fd) = true).
+               { unfold required in R. apply andb_true_iff in R. tauto. }
+               rewrite NN in V. cbn in V. subst e.
+               split; [intros _; discriminate | intros o H; discriminate].
+            -- inversion V; subst e. split; [|intros; left; reflexivity].
+               unfold default_step. destruct (f_default fd); [destruct (cd (f_type fd) l)|]; discriminate.
+        + apply rmap_settled in St. rewrite (HCV _ _ St) in *. cbn zeta in *. fold v in St |- *.
+          assert (G : good v = Good v) by (unfold good; rewrite U; reflexivity). rewrite G in *.
+          destruct oneof eqn:OO.
+          * apply oapp_some in V as [e1 [e2 [V1 [V2 ->]]]]. inversion V1; subst e1.
+            apply HVV in V2. cbn in V2. fold v in V2.
+            destruct (is_null v) eqn:Nv.
+            -- split; [intros _; discriminate|]. intros o H. right. repeat split; auto. exists vn. auto.
+            -- rewrite andb_false_r in V2. subst e2. cbn [andb rmap]. split; [discriminate | intros; left; reflexivity].
+          * cbn [andb] in V. apply HVV in V. cbn in V. fold v in V. subst e.
+            rewrite (andb_comm (is_nonnull (f_type fd))).
+            destruct (is_null v && is_nonnull (f_type fd)); cbn [rmap].
+            -- split; [intros _; discriminate | intros o H; discriminate].
+            -- split; [discriminate | intros; left; reflexivity].
+      - assert (VM : var_missing vars node = false) by (destruct node; try discriminate Vn; reflexivity).
+        rewrite VM in *.
+        assert (V' : vl (f_type fd) node (p ++ [PName (f_name fd)]) = Some e).
+        { destruct node; try discriminate Vn; exact V. }
+        apply rmap_settled in St.
+        pose proof (HIH (f_type fd) node _ e (lit_wf_obj _ _ _ FW Inode)
+                      (fun E => lit_const_obj _ _ _ (FC E) Inode)
+                      (fun _ => top_ok_nonvar vars _ _ Vn) St V') as A.
+        split.
+        + intro H. apply rmap_invalid in H. apply A. exact H.
+        + intros o H. left. destruct e; [reflexivity|]. exfalso.
+          destruct A as [_ A]. rewrite A in H by discriminate. discriminate.
+    Qed.
+  
+    Lemma seq_fields_single_lit k node : forall fds out,
+      (forall fd, In fd fds -> f_default fd = None) ->
+      NoDup (map f_name fds) ->
+      seq_fields (lit_step c cd vars [(k, node)]) fds = Good out ->
+      (known k fds = true ->
+         exists fd, In fd fds /\ f_name fd = k /\
+           ((var_missing vars node = true /\ out = []) \/
+            (var_missing vars node = false /\ exists y, c (f_type fd) node = Good y /\ out = [(k, y)])))
+      /\ (known k fds = false -> out = []).
+    Proof.
+      induction fds as [|fd fds IH]; intros out ND NDn H.
+      - cbn in H. inversion H. split; [discriminate | reflexivity].
+      - cbn [seq_fields] in H. cbn [map] in NDn. inversion NDn as [|? ? Hnot ND']; subst.
+        assert (NDr : forall fd', In fd' fds -> f_default fd' = None) by (intros; apply ND; right; auto).
+        unfold lit_step at 1 in H. cbn [lit_get] in H. cbn [known]. rewrite (nat_list_eqb_sym k (f_name fd)).
+        destruct (nat_list_eqb (f_name fd) k) eqn:E; cbn [orb].
+        + apply nat_list_eqb_eq in E.
+          assert (Kr : known k fds = false).
+          { destruct (known k fds) eqn:K; [|reflexivity]. exfalso. apply known_in in K as [fd' [A B]].
+            apply Hnot. rewrite E, <- B. apply in_map. exact A. }
+          split; [|discriminate]. intros _. exists fd. split; [left; reflexivity|]. split; [exact E|].
+          destruct (var_missing vars node) eqn:VM.
+          * destruct (required fd); [discriminate|]. unfold default_step in H.
+            rewrite (ND fd (or_introl eq_refl)) in H. apply rmap_good in H as [out' [H ->]]. cbn [add_entry].
+            destruct (IH out' NDr ND' H) as [_ I2]. left. split; [reflexivity | exact (I2 Kr)].
+          * destruct (c (f_type fd) node) as [y| | |] eqn:C; cbn [rmap] in H; try discriminate.
+            apply rmap_good in H as [out' [H ->]]. cbn [add_entry].
+            destruct (IH out' NDr ND' H) as [_ I2]. rewrite (I2 Kr). right. split; [reflexivity|].
+            exists y. rewrite <- E. split; reflexivity.
+        + destruct (required fd); [discriminate|]. unfold default_step in H.
+          rewrite (ND fd (or_introl eq_refl)) in H. apply rmap_good in H as [out' [H ->]]. cbn [add_entry].
+          destruct (IH out' NDr ND' H) as [I1 I2]. split; [|exact I2].
+          intro K. destruct (I1 K) as [fd' [A B]]. exists fd'. split; [right; exact A | exact B].
+    Qed.
+
+    Lemma obj_lit_agree fds errs :
+      wf_tdef (DInput oneof fds) ->
+      settled (coerce_obj_lit c cd vars oneof fds fs) ->
+      validate_obj_lit vl static vars oneof fds fs p = Some errs ->
+      (coerce_obj_lit c cd vars oneof fds fs = Invalid <-> errs <> []).
+    Proof.
+      intros [NDn OD] St V. unfold coerce_obj_lit in *. unfold validate_obj_lit in V.
+      pose proof (lit_wf_obj_nodup _ FW) as NDf.
+      rewrite (node_names_nodup fs NDf) in *.
+      apply oapp_some in V as [e1 [e2 [V1 [V2 ->]]]]. inversion V2; subst e2; clear V2.
+      rewrite existsb_map in *.
+      destruct (existsb (fun x => negb (known (fst x) fds)) fs) eqn:HU.
+      - split; [|reflexivity]. intros _. apply app_nonempty. right. apply app_nonempty. left.
+        unfold unknown_lit_errs. apply map_nonempty. apply existsb_filter_nonempty. exact HU.
+      - assert (UE : unknown_lit_errs p fds fs = []).
+        { unfold unknown_lit_errs. rewrite (existsb_filter_empty _ _ HU). reflexivity. }
+        rewrite UE. cbn [app].
+        assert (FK : filter (fun kl => known (fst kl) fds) fs = fs) by (apply filter_all; exact HU).
+        destruct (seq_fields (lit_step c cd vars fs) fds) as [kvs| | |] eqn:SF.
+        + assert (Each : forall fd, In fd fds -> forall e, vlit_step vl static vars oneof fs p fd = Some e ->
+                           e = [] \/ exceptional fd).
+          { intros fd I e Ve. destruct (seq_fields_good_each _ _ _ SF fd I) as [o Ho].
+            assert (S0 : settled (lit_step c cd vars fs fd)) by (rewrite Ho; apply settled_good).
+            destruct (lit_step_facts fd e S0 Ve) as [_ B]. exact (B o Ho). }
+          destruct (Bool.bool_dec oneof true) as [OO|OO].
+          2:{ assert (OF : oneof = false) by (destruct oneof; congruence). rewrite OF. cbn [andb].
+              rewrite app_nil_r. split; [discriminate|]. intro X. exfalso. apply X.
+              eapply vfields_all_nil; [|exact V1]. intros fd I e Ve.
+              destruct (Each fd I e Ve) as [E|[E _]]; [exact E | congruence]. }
+          rewrite OO. cbn [andb]. unfold oneof_lit_errs. rewrite FK.
+          unfold oneof_lit_ok. rewrite (node_names_nodup fs NDf).
+          destruct fs as [|[k node] [|kn2 rest]] eqn:EF.
+          * cbn. split; [|reflexivity]. intros _. apply app_nonempty. right. discriminate.
+          * cbn [map fst]. cbn in HU. rewrite orb_false_r in HU. apply negb_false_iff in HU.
+            destruct (seq_fields_single_lit k node fds kvs (OD OO) NDn SF) as [S1 _].
+            destruct (S1 HU) as [fd [Ifd [En Sh]]].
+            destruct (vfields_some_each _ _ _ V1 fd Ifd) as [ek Vk].
+            assert (LGk : lit_get (f_name fd) [(k, node)] = Some node).
+            { cbn [lit_get]. rewrite En, nat_list_eqb_refl. reflexivity. }
+            destruct Sh as [[VM ->]|[VM [y [Cy ->]]]].
+            -- (* the only node is a variable without a value *)
+               cbn. split; [|reflexivity]. intros _. apply app_nonempty. left.
+               destruct node as [vn| | | | | | | |]; try discriminate VM. cbn [var_missing] in VM.
+               assert (SF' : static = false).
+               { destruct static eqn:ST; [|reflexivity]. exfalso.
+                 exact (lit_const_obj [(k, LVar vn)] k (LVar vn) (FC eq_refl) (or_introl eq_refl)). }
+               pose proof Vk as Vk0.
+               unfold vlit_step in Vk. rewrite LGk, SF', OO in Vk.
+               assert (Nv : is_null (lookup_var vn vars) = true)
+                 by (destruct (lookup_var vn vars); cbn in VM; try discriminate; reflexivity).
+               rewrite Nv in Vk. apply oapp_some in Vk as [a [b [Va [_ Ek]]]]. inversion Va; subst a.
+               eapply vfields_in_errs; [exact Ifd | exact Vk0 | | exact V1]. rewrite Ek. discriminate.
+            -- cbn [lit_get]. rewrite nat_list_eqb_refl. unfold dget. cbn [assoc]. rewrite nat_list_eqb_refl.
+               destruct (is_lnull node) eqn:Nl; cbn [negb andb].
+               { split; [|reflexivity]. intros _. apply app_nonempty. right. discriminate. }
+               rewrite app_nil_r.
+               destruct (is_none y) eqn:Ny; cbn [negb].
+               ++ (* a variable holding None *)
+                  split; [|reflexivity]. intros _.
+                  assert (Ey : y = PNone) by (destruct y; cbn in Ny; congruence). subst y.
+                  destruct (HN _ _ _ Cy eq_refl) as [X|X]; [congruence|].
+                  destruct node as [vn| | | | | | | |]; try discriminate X. cbn [var_missing] in VM.
+                  assert (SF' : static = false).
+                  { destruct static eqn:ST; [|reflexivity]. exfalso.
+                    exact (lit_const_obj [(k, LVar vn)] k (LVar vn) (FC eq_refl) (or_introl eq_refl)). }
+                  assert (Sc : settled (c (f_type fd) (LVar vn))) by (rewrite Cy; apply settled_good).
+                  rewrite (HCV _ _ Sc) in Cy. cbn zeta in Cy.
+                  destruct (is_null (lookup_var vn vars) && is_nonnull (f_type fd)); [discriminate|].
+                  apply good_inv in Cy as [Ev _].
+                  assert (Nv : is_null (lookup_var vn vars) = true) by (rewrite <- Ev; reflexivity).
+                  pose proof Vk as Vk0.
+                  unfold vlit_step in Vk. rewrite LGk, SF', OO, Nv in Vk.
+                  apply oapp_some in Vk as [a [b [Va [_ Ek]]]]. inversion Va; subst a.
+                  eapply vfields_in_errs; [exact Ifd | exact Vk0 | | exact V1]. rewrite Ek. discriminate.
+               ++ split; [discriminate|]. intro X. exfalso. apply X.
+                  eapply vfields_all_nil; [|exact V1]. intros fd' I' e' Ve'.
+                  destruct (Each fd' I' e' Ve') as [E|[_ [SF' [vn [LG' Nv]]]]]; [exact E|]. exfalso.
+                  rewrite EF in LG'. cbn [lit_get] in LG'. destruct (nat_list_eqb (f_name fd') k); [|discriminate LG'].
+                  inversion LG'; subst node. cbn [var_missing] in VM.
+                  assert (Sc : settled (c (f_type fd) (LVar vn))) by (rewrite Cy; apply settled_good).
+                  rewrite (HCV _ _ Sc) in Cy. cbn zeta in Cy.
+                  destruct (is_null (lookup_var vn vars) && is_nonnull (f_type fd)); [discriminate|].
+                  apply good_inv in Cy as [Ev _]. subst y.
+                  destruct (lookup_var vn vars); cbn in *; congruence.
+          * cbn. split; [|reflexivity]. intros _. apply app_nonempty. right. discriminate.
+        + split; [|reflexivity]. intros _. apply app_nonempty. left.
+          eapply vfields_invalid_errs; [|exact SF|exact V1].
+          intros fd I e Ve Hi.
+          assert (S0 : settled (lit_step c cd vars fs fd)) by (rewrite Hi; apply settled_invalid).
+          destruct (lit_step_facts fd e S0 Ve) as [A _]. exact (A Hi).
+        + destruct St as [St _]. congruence.
+        + destruct St as [_ St]. congruence.
+    Qed.
+  End ObjLit.
+
+  (* ---------------------------------------------------------------- literals: the agreement *)
+
+  Lemma clit_var f vars t vn : settled (clit f vars t (LVar vn)) ->
+    clit f vars t (LVar vn) =
+    (let v := lookup_var vn vars in if is_null v && is_nonnull t then Invalid else good v).
+  Proof. destruct f; [intros [_ H]; exfalso; apply H; reflexivity | reflexivity]. Qed.
+
+  Lemma vlit_var f static vars t vn q e : vlit f static vars t (LVar vn) q = Some e ->
+    e = (if static then [] else if is_nonnull t && is_null (lookup_var vn vars) then [q] else []).
+  Proof. destruct f; [discriminate|]. cbn [validate_lit]. destruct static; intro H; inversion H; reflexivity. Qed.
+
+  Lemma clit_null f vars t : settled (clit f vars t LNull) ->
+    clit f vars t LNull = (if is_nonnull t then Invalid else Good PNone).
+  Proof.
+    destruct f; [intros [_ H]; exfalso; apply H; reflexivity|]. destruct t; reflexivity.
+  Qed.
+
+  Lemma lit_item_id {A} (r : result A) (g : A) : match r with Invalid => if false then Good g else Invalid | x => x end = r.
+  Proof. destruct r; reflexivity. Qed.
+
+  Theorem lit_agree_gen : forall fuel static vars t l p errs,
+    lit_wf l -> (static = true -> lit_const l) -> (static = false -> top_ok vars t l = true) ->
+    settled (clit fuel vars t l) -> vlit fuel static vars t l p = Some errs ->
+    (clit fuel vars t l = Invalid <-> errs <> []).
+  Proof.
+    induction fuel as [|f IH]; intros static vars t l p errs W C TO St V; [discriminate|].
+    destruct (is_var l) eqn:Vl.
+    - destruct l as [n| | | | | | | |]; try discriminate Vl. cbn [coerce_lit validate_lit] in *.
+      destruct static. { exfalso. exact (C eq_refl). }
+      specialize (TO eq_refl). unfold top_ok in TO. cbn [var_missing] in TO.
+      inversion V; subst errs; clear V.
+      destruct (lookup_var n vars) eqn:E, (is_nonnull t) eqn:NN; cbn in *;
+        split; intro H; try discriminate; try reflexivity; try congruence; exfalso; apply H; reflexivity.
+    - rewrite (clit_nonvar f vars t l Vl) in *. rewrite (vlit_nonvar f static vars t l p Vl) in V.
+      destruct t as [n|it|t'].
+      + destruct (is_lnull l) eqn:Nl.
+        { inversion V. split; [discriminate | congruence]. }
+        destruct (assoc n s) as [d|] eqn:A; [|destruct St as [St _]; congruence].
+        destruct d as [sc|e|o fds].
+        * inversion V; subst errs. apply leaf_agree. exact St.
+        * inversion V; subst errs. apply leaf_agree. exact St.
+        * destruct l; try discriminate Vl; try (inversion V; split; [discriminate | reflexivity]).
+          refine (obj_lit_agree (clit f vars) (clit f []) (vlit f static vars) static vars
+                    _ _ _ _ o fs p W C fds errs (WF _ _ A) St V).
+          -- intros t0 x q e W0 C0 T0 S0 V0. eapply IH; eauto.
+          -- intros t0 x y. apply clit_none.
+          -- intros t0 vn. apply clit_var.
+          -- intros t0 vn q e. apply vlit_var.
+      + destruct (is_lnull l) eqn:Nl.
+        { inversion V. split; [discriminate | congruence]. }
+        destruct l; try discriminate Vl; try discriminate Nl;
+          try (apply rmap_settled in St; rewrite rmap_invalid; eapply IH; eauto;
+               intros _; apply top_ok_nonvar; reflexivity).
+        apply rmap_settled in St. rewrite rmap_invalid.
+        eapply (seq_list_agree (lit_item (clit f vars it) vars it)
+                  (fun i x => vlit f static vars it x (p ++ [PIdx i]))); eauto.
+        intros x Ix i e S1 V1.
+        pose proof (lit_wf_list _ _ W Ix) as Wx.
+        assert (Cx : static = true -> lit_const x) by (intro E; exact (lit_const_list _ _ (C E) Ix)).
+        unfold lit_item in *.
+        destruct (negb (is_nonnull it) && var_nullish vars x) eqn:SP.
+        * apply andb_true_iff in SP as [NN VN]. apply negb_true_iff in NN.
+          destruct x as [vn| | | | | | | |]; try discriminate VN. cbn [var_nullish] in VN.
+          apply vlit_var in V1. rewrite NN in V1. cbn [andb] in V1.
+          assert (Ee : e = []) by (destruct static; exact V1). subst e.
+          split; [|congruence]. intro Hi. exfalso.
+          destruct f as [|f']; [cbn in S1; destruct S1 as [_ S1]; congruence|].
+          cbn [coerce_lit] in Hi. rewrite NN, andb_false_r in Hi.
+          destruct (lookup_var vn vars); cbn in *; discriminate.
+        * assert (TOx : static = false -> top_ok vars it x = true).
+          { intros _. unfold top_ok. destruct x; try reflexivity. cbn [var_missing var_nullish] in *.
+            destruct (is_nonnull it), (lookup_var n vars); cbn in *; congruence. }
+          pose proof (IH static vars it x (p ++ [PIdx i]) e Wx Cx TOx) as Ax.
+          destruct (clit f vars it x) as [y| | |] eqn:CX.
+          -- exact (Ax (settled_good y) V1).
+          -- exact (Ax settled_invalid V1).
+          -- destruct S1 as [S1 _]. congruence.
+          -- destruct S1 as [_ S1]. congruence.
+      + destruct (is_lnull l) eqn:Nl.
+        { inversion V. split; [discriminate | reflexivity]. }
+        eapply IH; eauto. intros _. apply top_ok_nonvar. exact Vl.
+  Qed.
+
+  (* ================================================================ the result conforms to the type *)
+
+  Definition scalar_conforms (sc : scalar) (v : pyval) : Prop :=
+    match sc with
+    | SInt => exists z, v = PInt z /\ int32 z
+    | SFloat => exists n m e, v = PFloat (FFin n m e)
+    | SString | SID => exists str, v = PStr str
+    | SBoolean => exists b, v = PBool b
+    end.
+
+  Inductive conforms : ityp -> pyval -> Prop :=
+  | CNull t : is_nonnull t = false -> conforms t PNone
+  | CNonNull t v : is_null v = false -> conforms t v -> conforms (TNonNull t) v
+  | CList it vs : Forall (conforms it) vs -> conforms (TList it) (PList vs)
+  | CScalar n sc v : assoc n s = Some (DScalar sc) -> scalar_conforms sc v -> conforms (TNamed n) v
+  | CEnum n e v : assoc n s = Some (DEnum e) -> (exists name, In (name, v) e) -> conforms (TNamed n) v
+  | CInput n oneof fds kvs :
+      assoc n s = Some (DInput oneof fds) ->
+      (* exactly the declared fields: every entry is a declared field holding a conforming value *)
+      Forall (fun kv => exists fd, In fd fds /\ f_name fd = fst kv /\ conforms (f_type fd) (snd kv)) kvs ->
+      NoDup (map fst kvs) ->
+      (* defaults applied, required fields present *)
+      (forall fd, In fd fds -> (f_default fd <> None \/ is_nonnull (f_type fd) = true) ->
+                  exists y, In (f_name fd, y) kvs) ->
+      (* OneOf: exactly one entry, not null *)
+      (oneof = true -> exists k y, kvs = [(k, y)] /\ is_null y = false) ->
+      conforms (TNamed n) (PDict kvs).
+
+  Lemma scalar_conforms_not_null sc v : scalar_conforms sc v -> is_null v = false.
+  Proof.
+    destruct sc; cbn.
+    - intros [z [-> _]]. reflexivity.
+    - intros [n [m [e ->]]]. reflexivity.
+    - intros [x ->]. reflexivity.
+    - intros [x ->]. reflexivity.
+    - intros [x ->]. reflexivity.
+  Qed.
+
+  Lemma conforms_not_undef t v : conforms t v -> is_undef v = false.
+  Proof.
+    destruct 1 as [t N|t v N C|it vs F|n sc v A Sc|n e v A [name I]|n oneof fds kvs A F ND D O].
+    - reflexivity.
+    - destruct v; cbn in *; congruence.
+    - reflexivity.
+    - apply scalar_conforms_not_null in Sc. destruct v; cbn in *; congruence.
+    - pose proof (WF _ _ A name v I) as X. destruct v; cbn in *; congruence.
+    - reflexivity.
+  Qed.
+
+  Lemma coerce_input_conforms sc v r : coerce_input maxd sc v = COk r -> scalar_conforms sc r.
+  Proof.
+    destruct sc, v; cbn [coerce_input coerce_int coerce_float coerce_string coerce_boolean coerce_id scalar_conforms];
+      try discriminate; intro H.
+    - apply int_from_int_ok in H. exists z. exact H.
+    - apply int_from_float_ok in H as [z [_ H]]. exists z. exact H.
+    - apply float_from_int_ok in H as [-> _]. destruct (float_of_int_fin z) as [n [m [e E]]].
+      exists n, m, e. rewrite E. reflexivity.
+    - apply float_from_float_ok in H as [-> [n [m [e ->]]]]. exists n, m, e. reflexivity.
+    - inversion H. eexists; reflexivity.
+    - inversion H. eexists; reflexivity.
+    - apply str_of_int_ok in H as [x [_ ->]]. eexists; reflexivity.
+    - apply id_from_float_ok in H as [z [x [_ [_ ->]]]]. eexists; reflexivity.
+    - inversion H. eexists; reflexivity.
+  Qed.
+
+  Lemma of_cres_good r y : of_cres r = Good y -> r = COk y.
+  Proof. destruct r; cbn [of_cres]; [|discriminate]. intro H. apply good_inv in H as [-> _]. reflexivity. Qed.
+
+  Lemma seq_list_forall {A B} (c : A -> result B) (P : B -> Prop) l :
+    (forall x y, In x l -> c x = Good y -> P y) ->
+    forall ys, seq_list c l = Good ys -> Forall P ys.
+  Proof.
+    induction l as [|x l IH]; intros H ys G; cbn [seq_list] in G.
+    - inversion G. constructor.
+    - destruct (c x) as [y| | |] eqn:C; try discriminate.
+      apply rmap_good in G as [ys' [G ->]]. constructor.
+      + eapply H; [left; reflexivity | exact C].
+      + apply IH; auto. intros x' y' I. apply H. right. exact I.
+  Qed.
+
+  (* entries produced by a fields loop *)
+  Lemma seq_fields_entries (step : field -> result (option pyval)) (P : field -> pyval -> Prop) :
+    forall fds out,
+    (forall fd y, In fd fds -> step fd = Good (Some y) -> P fd y) ->
+    NoDup (map f_name fds) ->
+    seq_fields step fds = Good out ->
+    Forall (fun kv => exists fd, In fd fds /\ f_name fd = fst kv /\ P fd (snd kv)) out
+    /\ NoDup (map fst out)
+    /\ (forall k, In k (map fst out) -> In k (map f_name fds))
+    /\ (forall fd, In fd fds -> (exists y, step fd = Good (Some y)) -> exists y, In (f_name fd, y) out).
+  Proof.
+    induction fds as [|fd fds IH]; intros out HP ND G; cbn [seq_fields] in G.
+    - inversion G. repeat split; try constructor; intros ? []; contradiction.
+    - destruct (step fd) as [o| | |] eqn:C; try discriminate.
+      apply rmap_good in G as [out' [G ->]]. cbn [map] in ND. inversion ND as [|? ? Hn ND']; subst.
+      destruct (IH out' (fun fd' y I => HP fd' y (or_intror I)) ND' G) as [F [N [Sub Ex]]].
+      assert (F' : Forall (fun kv => exists fd0, In fd0 (fd :: fds) /\ f_name fd0 = fst kv /\ P fd0 (snd kv)) out').
+      { eapply Forall_impl; [|exact F]. intros kv [fd0 [I [E Pk]]]. exists fd0. repeat split; auto. right. exact I. }
+      destruct o as [y|]; cbn [add_entry].
+      + repeat split.
+        * constructor; [|exact F']. exists fd. cbn [fst snd]. split; [left; reflexivity|]. split; [reflexivity|].
+          apply HP; [left; reflexivity | exact C].
+        * cbn [map fst]. constructor; [|exact N]. intro I. apply Hn. apply Sub. exact I.
+        * intros k [<-|I]; [left; reflexivity | right; apply Sub; exact I].
+        * intros fd0 [<-|I] X.
+          -- exists y. left. reflexivity.
+          -- destruct (Ex fd0 I X) as [y0 I0]. exists y0. right. exact I0.
+      + repeat split; auto.
+        * intros k I. right. apply Sub. exact I.
+        * intros fd0 [<-|I] [y0 X]; [congruence|]. apply Ex; eauto.
+  Qed.
+
+  Lemma scalar_lit_conforms sc l r : scalar_lit parse_float sc l = Good r -> scalar_conforms sc r.
+  Proof.
+    destruct sc, l; cbn [scalar_lit scalar_conforms]; try discriminate; unfold float_lit; intro H.
+    - destruct (int_lit_value s0) as [z|]; [|discriminate].
+      destruct (in_int32 z) eqn:R; [|discriminate]. inversion H. exists z. split; [reflexivity|].
+      apply in_int32_spec. exact R.
+    - destruct (parse_float s0) as [x|]; [|discriminate]. destruct x; cbn [f_finite] in H; try discriminate.
+      inversion H. eexists _, _, _. reflexivity.
+    - destruct (parse_float s0) as [x|]; [|discriminate]. destruct x; cbn [f_finite] in H; try discriminate.
+      inversion H. eexists _, _, _. reflexivity.
+    - inversion H. eexists; reflexivity.
+    - inversion H. eexists; reflexivity.
+    - inversion H. eexists; reflexivity.
+    - inversion H. eexists; reflexivity.
+  Qed.
+
+  Lemma dedup_in x l : forall seen, In x l -> In x seen \/ In x (dedup_names l seen).
+  Proof.
+    induction l as [|y l IH]; intros seen I; [destruct I|]. cbn [dedup_names].
+    destruct I as [->|I].
+    - destruct (mem_text x seen) eqn:M; [left; apply mem_text_in; exact M | right; left; reflexivity].
+    - destruct (mem_text y seen) eqn:M.
+      + apply IH. exact I.
+      + destruct (IH (y :: seen) I) as [[->|H]|H]; [right; left; reflexivity | left; exact H | right; right; exact H].
+  Qed.
+
+  Lemma lit_get_some_in k fs : lit_get k fs <> None -> In k (node_names fs).
+  Proof.
+    intro H. destruct (lit_get k fs) as [x|] eqn:E; [|congruence]. apply lit_get_in in E.
+    unfold node_names. destruct (dedup_in k (map fst fs) [] (in_map fst _ _ E)) as [[]|I]. exact I.
+  Qed.
+
+  Lemma lookup_var_nil n : lookup_var n [] = PUndef.
+  Proof. reflexivity. Qed.
+
+  Theorem conforms_lit : forall fuel t l r, clit fuel [] t l = Good r -> conforms t r.
+  Proof.
+    induction fuel as [|f IH]; intros t l r H; [discriminate|].
+    destruct (is_var l) eqn:Vl.
+    - destruct l; try discriminate Vl. cbn [coerce_lit] in H. rewrite lookup_var_nil in H.
+      cbn in H. destruct (is_nonnull t); discriminate.
+    - rewrite (clit_nonvar f [] t l Vl) in H. destruct t as [n|it|t'].
+      + destruct (is_lnull l) eqn:Nl. { inversion H. apply CNull. reflexivity. }
+        destruct (assoc n s) as [d|] eqn:A; [|discriminate].
+        destruct d as [sc|e|o fds].
+        * eapply CScalar; [exact A|]. eapply scalar_lit_conforms. exact H.
+        * cbn [leaf_lit] in H. destruct l; cbn [enum_lit] in H; try discriminate.
+          destruct (assoc n0 e) as [x|] eqn:E; [|discriminate]. apply good_inv in H as [-> _].
+          eapply CEnum; [exact A|]. exists n0. apply assoc_in. exact E.
+        * destruct l; try discriminate. unfold coerce_obj_lit in H.
+          destruct (existsb _ (node_names fs)); [discriminate|].
+          destruct (seq_fields (lit_step (clit f []) (clit f []) [] fs) fds) as [kvs| | |] eqn:SF; try discriminate.
+          destruct (o && negb (oneof_lit_ok fs kvs)) eqn:OK; [discriminate|]. inversion H; subst r; clear H.
+          destruct (WF _ _ A) as [NDn OD].
+          set (step := lit_step (clit f []) (clit f []) [] fs) in *.
+          assert (HP : forall fd y, In fd fds -> step fd = Good (Some y) ->
+                         conforms (f_type fd) y /\ step fd = Good (Some y)).
+          { intros fd y _ Hs. split; [|exact Hs]. unfold step, lit_step in Hs.
+            assert (D : default_step (clit f []) fd = Good (Some y) -> conforms (f_type fd) y).
+            { unfold default_step. destruct (f_default fd) as [dl|]; [|discriminate].
+              destruct (clit f [] (f_type fd) dl) eqn:C; try discriminate. intro X; inversion X; subst.
+              eapply IH; eauto. }
+            destruct (lit_get (f_name fd) fs) as [node|].
+            - destruct (var_missing [] node).
+              + destruct (required fd); [discriminate | auto].
+              + apply rmap_good in Hs as [a [C E]]. inversion E; subst. eapply IH; eauto.
+            - destruct (required fd); [discriminate | auto]. }
+          destruct (seq_fields_entries step (fun fd y => conforms (f_type fd) y /\ step fd = Good (Some y))
+                      fds kvs HP NDn SF) as [F [N [_ Ex]]].
+          eapply CInput; [exact A | | exact N | |].
+          -- eapply Forall_impl; [|exact F]. intros kv [fd [I [E [Cf _]]]]. exists fd. auto.
+          -- intros fd I Hd. apply Ex; [exact I|].
+             destruct (seq_fields_good_each _ _ _ SF fd I) as [o' Ho]. destruct o' as [y|]; [eauto|]. exfalso.
+             unfold step, lit_step in Ho.
+             assert (D : default_step (clit f []) fd = Good None -> f_default fd = None).
+             { unfold default_step. destruct (f_default fd) as [dl|]; [|reflexivity].
+               destruct (clit f [] (f_type fd) dl); discriminate. }
+             assert (R : required fd = false -> default_step (clit f []) fd = Good None -> False).
+             { intros R X. apply D in X. unfold required in R. rewrite X in R.
+               destruct Hd as [Hd|Hd]; [congruence|]. rewrite Hd in R. discriminate. }
+             destruct (lit_get (f_name fd) fs) as [node|].
+             ++ destruct (var_missing [] node).
+                ** destruct (required fd) eqn:Rq; [discriminate | exact (R eq_refl Ho)].
+                ** apply rmap_good in Ho as [a [_ E]]. discriminate.
+             ++ destruct (required fd) eqn:Rq; [discriminate | exact (R eq_refl Ho)].
+          -- intros ->. cbn [andb] in OK. apply negb_false_iff in OK. unfold oneof_lit_ok in OK.
+             destruct (node_names fs) as [|k [|]] eqn:NN; try discriminate.
+             destruct kvs as [|[k' y] [|]]; try discriminate.
+             destruct (lit_get k fs) as [node|] eqn:LG; [|discriminate].
+             apply andb_true_iff in OK as [_ OK]. apply negb_true_iff in OK.
+             exists k', y. split; [reflexivity|].
+             destruct (Forall_inv F) as [fd [I [E [Cf Hs]]]]. cbn [fst snd] in *.
+             pose proof (conforms_not_undef _ _ Cf) as U.
+             assert (Ek : k' = k).
+             { assert (LG' : lit_get k' fs <> None).
+               { unfold step, lit_step in Hs. rewrite E in Hs. destruct (lit_get k' fs); [discriminate|].
+                 destruct (required fd); [discriminate|]. unfold default_step in Hs.
+                 rewrite (OD eq_refl fd I) in Hs. discriminate. }
+               apply lit_get_some_in in LG'. rewrite NN in LG'. destruct LG' as [->|[]]. reflexivity. }
+             rewrite Ek in OK. unfold dget in OK. cbn [assoc] in OK. rewrite nat_list_eqb_refl in OK.
+             destruct y; cbn in *; congruence.
+      + destruct (is_lnull l) eqn:Nl. { inversion H. apply CNull. reflexivity. }
+        assert (Hone : forall y, clit f [] it l = Good y -> conforms (TList it) (PList [y])).
+        { intros y Hy. apply CList. constructor; [eapply IH; eauto | constructor]. }
+        destruct l; try discriminate Vl; try discriminate Nl;
+          try (apply rmap_good in H as [y [Hy ->]]; apply Hone; exact Hy).
+        apply rmap_good in H as [ys [Hy ->]]. apply CList.
+        eapply seq_list_forall; [|exact Hy]. intros x y _ Hx. unfold lit_item in Hx.
+        destruct (clit f [] it x) eqn:C; try discriminate.
+        * inversion Hx; subst. eapply IH; eauto.
+        * destruct (negb (is_nonnull it) && var_nullish [] x) eqn:SP; [|discriminate].
+          inversion Hx. apply CNull. apply andb_true_iff in SP as [SP _]. apply negb_true_iff in SP. exact SP.
+      + destruct (is_lnull l) eqn:Nl; [discriminate|].
+        apply CNonNull; [|eapply IH; eauto].
+        destruct (is_null r) eqn:Nr; [|reflexivity]. exfalso.
+        destruct (clit_none _ _ _ _ _ H Nr); congruence.
+  Qed.
+
+  Theorem conforms_val : forall fuel t v r, cval fuel t v = Good r -> conforms t r.
+  Proof.
+    induction fuel as [|f IH]; intros t v r H; [discriminate|].
+    destruct t as [n|it|t']; cbn [coerce_val] in H.
+    - destruct (is_null v) eqn:Nv. { inversion H. apply CNull. reflexivity. }
+      destruct (assoc n s) as [d|] eqn:A; [|discriminate].
+      destruct d as [sc|e|o fds].
+      + cbn [leaf_val] in H. apply of_cres_good in H. eapply CScalar; [exact A|].
+        eapply coerce_input_conforms. exact H.
+      + cbn [leaf_val] in H. apply of_cres_good in H. destruct v; cbn [enum_input] in H; try discriminate.
+        destruct (assoc s0 e) as [x|] eqn:E; [|discriminate]. inversion H; subst.
+        eapply CEnum; [exact A|]. exists s0. apply assoc_in. exact E.
+      + destruct v; try discriminate. unfold coerce_obj_val in H.
+        destruct (has_unknown fds kvs); [discriminate|].
+        destruct (seq_fields (val_step (cval f) (clit f []) kvs) fds) as [out| | |] eqn:SF; try discriminate.
+        destruct (o && negb (oneof_val_ok kvs out)) eqn:OK; [discriminate|]. inversion H; subst r; clear H.
+        destruct (WF _ _ A) as [NDn OD].
+        set (step := val_step (cval f) (clit f []) kvs) in *.
+        assert (D : forall fd y, default_step (clit f []) fd = Good (Some y) -> conforms (f_type fd) y).
+        { intros fd y. unfold default_step. destruct (f_default fd) as [dl|]; [|discriminate].
+          destruct (clit f [] (f_type fd) dl) eqn:C; try discriminate. intro X; inversion X; subst.
+          eapply conforms_lit; eauto. }
+        assert (HP : forall fd y, In fd fds -> step fd = Good (Some y) -> conforms (f_type fd) y).
+        { intros fd y _ Hs. unfold step, val_step in Hs.
+          destruct (is_undef (dget (f_name fd) kvs)).
+          - destruct (required fd); [discriminate | auto].
+          - apply rmap_good in Hs as [a [C E]]. inversion E; subst. eapply IH; eauto. }
+        destruct (seq_fields_entries step (fun fd y => conforms (f_type fd) y) fds out HP NDn SF) as [F [N [_ Ex]]].
+        eapply CInput; [exact A | exact F | exact N | |].
+        * intros fd I Hd. apply Ex; [exact I|].
+          destruct (seq_fields_good_each _ _ _ SF fd I) as [o' Ho]. destruct o' as [y|]; [eauto|]. exfalso.
+          unfold step, val_step in Ho.
+          destruct (is_undef (dget (f_name fd) kvs)).
+          -- destruct (required fd) eqn:Rq; [discriminate|]. unfold default_step in Ho.
+             destruct (f_default fd) as [dl|] eqn:Df.
+             ++ destruct (clit f [] (f_type fd) dl); discriminate.
+             ++ unfold required in Rq. rewrite Df in Rq. destruct Hd as [Hd|Hd]; [congruence|].
+                rewrite Hd in Rq. discriminate.
+          -- apply rmap_good in Ho as [a [_ E]]. discriminate.
+        * intros ->. cbn [andb] in OK. apply negb_false_iff in OK. unfold oneof_val_ok in OK.
+          destruct (defined_entries kvs) as [|? [|]]; try discriminate.
+          destruct out as [|[k y] [|]]; try discriminate.
+          exists k, y. split; [reflexivity|]. apply negb_true_iff in OK.
+          destruct (Forall_inv F) as [fd [_ [_ Cf]]]. cbn [snd] in Cf.
+          pose proof (conforms_not_undef _ _ Cf). destruct y; cbn in *; congruence.
+    - destruct (is_null v) eqn:Nv. { inversion H. apply CNull. reflexivity. }
+      assert (Hone : forall y, cval f it v = Good y -> conforms (TList it) (PList [y])).
+      { intros y Hy. apply CList. constructor; [eapply IH; eauto | constructor]. }
+      destruct v; try (apply rmap_good in H as [y [Hy ->]]; apply Hone; exact Hy).
+      apply rmap_good in H as [ys [Hy ->]]. apply CList.
+      eapply seq_list_forall; [|exact Hy]. intros x y _ Hx. eapply IH; eauto.
+    - destruct (is_null v) eqn:Nv; [discriminate|].
+      apply CNonNull; [|eapply IH; eauto].
+      destruct (is_null r) eqn:Nr; [|reflexivity]. exfalso.
+      pose proof (cval_none _ _ _ _ H Nr). congruence.
   Qed.
 End Agreement.
